@@ -385,3 +385,9 @@ package ledger
 //@   property C08 C07 C13 C29 C31
 //@   requires payload != nil
 //@   ensures r.ID == nil && r.Data == payload && r.IdempotencyKey == "" && r.SchemaVersion == ""
+
+// ---- log.go: HydrateLog (C38) ------------------------------------------------------------------------------------
+// Decoding the payload of an imported / stored log: json.Unmarshal(data, &payload) may leave the interface nil (JSON
+// null), and reflect.ValueOf(payload).Elem() panics on that (finding F24). No panic for any type and any data.
+//@ func HydrateLog(_type LogType, data []byte) (p LogPayload, err error)
+//@   property C38
